@@ -60,3 +60,16 @@ Print Assumptions C01_expressions_partial.
 Example C01_sub_routines_accepted :
   forallb (fun x => match tlower (snd (fst (snd x))) (snd (snd x)) with OK _ => true | Err _ => false end) sub_bodies = true.
 Proof. vm_compute. reflexivity. Qed.
+
+(* ------------------------------------------------------------------ shipped behaviours covered by the end-to-end theorem
+   `covered h prog` (proofs/FragCheck.v) is a BOOLEAN the harness evaluates for every accepted shipped behaviour: the
+   behaviour lies in the statement fragment (decided by a checker proved sound and complete for sfrags) and the REAL
+   configuration translates it exactly like the repaired one.  For every such behaviour the whole-transformer simulation
+   theorem holds for the configuration the real compiler has: *)
+From RZ.proofs Require Import SeqLaws StmtCorrect FragCheck.
+Theorem C01_covered_behaviours_correct : forall h prog, covered h prog = true ->
+  exists eff V', tlower_info (cfg_insn h) prog = OK (mkti eff h 0 false []) /\
+    forall ilsubs E csub xi cs ms fuel cs', srel (IM_of prog) E [] cs ms -> cexecs E csub xi fuel cs prog = Some cs' ->
+      exists ms', runs (rw_of_prog prog) ilsubs eff ms ms' /\ srel (IM_of prog) E V' cs' ms'.
+Proof. exact covered_correct. Qed.
+Print Assumptions C01_covered_behaviours_correct.
